@@ -26,8 +26,8 @@ CONSTANTS Fac(_),            \* unit key -> residue vector of its scale
 NoUnit == <<>>
 IsNoUnit(c) == DOMAIN c = {}
 Keys(c) == SelectSeq(UOrder, LAMBDA u : u \in DOMAIN c)       \* BTreeMap iteration order
-Put(f, k, v) == [x \in (DOMAIN f) \cup {k} |-> IF x = k THEN v ELSE f[x]]
-Del(f, k) == [x \in (DOMAIN f) \ {k} |-> f[x]]
+Put(f, k, v) == TLCEval([x \in (DOMAIN f) \cup {k} |-> IF x = k THEN v ELSE f[x]])
+Del(f, k) == TLCEval([x \in (DOMAIN f) \ {k} |-> f[x]])
 Sgn(x) == IF x > 0 THEN 1 ELSE IF x < 0 THEN -1 ELSE 0
 
 \* ---------------------------------------------------------------- declarative layer
@@ -37,7 +37,7 @@ RECURSIVE SumDims(_, _, _)
 SumDims(c, ks, j) == IF j > Len(ks) THEN Dim0
                      ELSE LET d == SumDims(c, ks, j + 1)
                               ud == UDim(ks[j]) IN
-                          [b \in BaseSet |-> d[b] + c[ks[j]].pw * ud[b]]
+                          TLCEval([b \in BaseSet |-> d[b] + c[ks[j]].pw * ud[b]])
 Dims(c) == SumDims(c, Keys(c), 1)
 RECURSIVE ScaleR(_, _, _)
 ScaleR(c, ks, j) == IF j > Len(ks) THEN RInt(1)
@@ -46,7 +46,7 @@ Scale(c) == ScaleR(c, Keys(c), 1)
 \* prefix bias: the kilogram is stored with prefix 0 and displayed "kg"; its scale is 1
 HasOffset(c) == \E u \in DOMAIN c : u \in UOffsetKeys
 Commensurable(a, b) == Dims(a) = Dims(b)
-UPow(c, n) == IF n = 0 THEN NoUnit ELSE [u \in DOMAIN c |-> [pw |-> c[u].pw * n, px |-> c[u].px]]
+UPow(c, n) == IF n = 0 THEN NoUnit ELSE TLCEval([u \in DOMAIN c |-> [pw |-> c[u].pw * n, px |-> c[u].px]])
 NoZero(c) == \A u \in DOMAIN c : c[u].pw # 0
 
 \* C02: when may two quantities be added / subtracted / cast?
@@ -126,11 +126,11 @@ MergeR(names, r, ks, j, n) ==
        ELSE MergeR(Put(names, u, [pw |-> r[u] * n, px |-> 0]), r, ks, j + 1, n)
 \* returns the result unit and the rescaled operand values (the caller multiplies / divides them)
 Mul(self, other, n, lhs, rhs) ==        \* compound.rs:177-248
-  IF IsNoUnit(self) THEN [unit |-> [u \in DOMAIN other |-> [pw |-> other[u].pw * n, px |-> other[u].px]], lhs |-> lhs, rhs |-> rhs]
+  IF IsNoUnit(self) THEN [unit |-> TLCEval([u \in DOMAIN other |-> [pw |-> other[u].pw * n, px |-> other[u].px]]), lhs |-> lhs, rhs |-> rhs]
   ELSE IF IsNoUnit(other) THEN [unit |-> self, lhs |-> lhs, rhs |-> rhs]
   ELSE LET lb == BasePowers(self)
            rb == BasePowers(other)
-           n0 == [u \in DOMAIN lb |-> [pw |-> lb[u], px |-> 0]]
+           n0 == TLCEval([u \in DOMAIN lb |-> [pw |-> lb[u], px |-> 0]])
            n1 == MergeR(n0, rb, Keys(rb), 1, n)
            dl == Ders(self)
            dr == Ders(other)
